@@ -41,6 +41,7 @@ KANI = dict(
         modules=[
             ('src/router/scheduler.rs', 'scheduler.rs', 'verif_kani'),
             ('src/segments/segment.rs', 'segment.rs', 'verif_kani'),
+            # ('src/router/iobufs.rs', 'iobufs.rs', 'verif_kani'),   # NOT usable: parking_lot::Mutex::lock makes the Kani 0.68 compiler panic (intrinsics.rs:243)
             ('src/protocol/v4/mod.rs', 'varint.rs', 'verif_kani_varint', dict(COPY='rumqttd::protocol::v4', LEN_LEN='len_len', CHECK_MAX='max as usize', SIZE_ERR_PAT='Error::PayloadSizeLimitExceeded(_)')),
             ('src/protocol/v5/mod.rs', 'varint.rs', 'verif_kani_varint', dict(COPY='rumqttd::protocol::v5', LEN_LEN='len_len', CHECK_MAX='max as usize', SIZE_ERR_PAT='Error::PayloadSizeLimitExceeded(_)')),
         ],
